@@ -593,4 +593,4 @@ UNITS = [U_PC_ADD, U_ITERS, U_TAGS, U_REG_SRC, U_REG_LOAD, U_LIST_SRC, U_LIST_LO
 
 
 # units of other modules that also run under this property (resolved by the runner after import)
-EXTRA_UNITS = [('contracts.C20', 'U_EXC'), ('contracts.C20', 'U_ATT'), ('contracts.C20', 'U_LOOPSTATE'), ('contracts.C12', 'U_PULSES'), ('contracts.C07', 'U_RHS2')]
+EXTRA_UNITS = [('contracts.C20', 'U_EXC'), ('contracts.C20', 'U_ATT'), ('contracts.C20', 'U_LOOPSTATE'), ('contracts.C12', 'U_PULSES'), ('contracts.C07', 'U_RHS2'), ('contracts.C08', 'U_ML2')]
